@@ -202,6 +202,26 @@ def index_common(eng, st, site, func, args, dty, checked, kind, unsafe=False):
     r = range_of(eng, st, idx, s.len)
     if r == "unsupported":
         return None
+    if r is None and isinstance(idx, VInt) and not idx.lin.is_const() and s.len.is_const() and s.len.c <= 16 \
+            and isinstance(s.base, tuple) and s.base and s.base[0] == "loc" and s.start.is_const() and not getattr(s, "mut", False):
+        # a small table indexed by a computed value: one case per entry (and the out-of-range case)
+        tgt = eng.load(st, s.base[1], s.base[2])
+        if isinstance(tgt, VArr) and tgt.elems is not None:
+            out = []
+            for i in range(s.len.c):
+                s2 = st.fork()
+                if eng.add(s2, c_eq(idx.lin, Lin.const(i))):
+                    ref = elem_ref(eng, s2, s, Lin.const(i))
+                    out.append((s2, mk_option(eng, dty, True, ref) if kind == "get" else ref))
+            s_no = st.fork()
+            if eng.add(s_no, c_le(s.len, idx.lin)):
+                if kind == "get":
+                    out.append((s_no, mk_option(eng, dty, False)))
+                else:
+                    eng.oblig("unsafe-pre" if unsafe else "bounds", frame, bb, label, False, s_no, "index %r not proven < length %r" % (idx.lin, s.len), t.get("ln"))
+            elif kind != "get":
+                eng.oblig("unsafe-pre" if unsafe else "bounds", frame, bb, label, True, st, None, t.get("ln"))
+            return out
     if r is None:
         if not isinstance(idx, VInt):
             return None
@@ -1089,6 +1109,23 @@ def iter_adapt(eng, st, site, func, target, args, dty):
     return [(st, VIter(target["name"].split("::")[-1], None, 0, args[0], args[1]))]
 
 
+def _typed_collect(eng, st, site, key, args, dty):
+    """run a synthetic collect loop and give the resulting vector the element type of the requested Vec<T>"""
+    ety = None
+    if dty is not None:
+        t = eng.T(dty)
+        if t["k"] == "adt" and t.get("args") and isinstance(t["args"][0], int):
+            ety = t["args"][0]
+    out = []
+    for s2, r in eng.call_local(st, site, key, args, tag="collect"):
+        if ety is not None and isinstance(r, VRef):
+            v = s2.cells.get(r.cell)
+            if isinstance(v, VVec) and v.elem_ty is None:
+                s2.cells[r.cell] = VVec(v.len, v.segs, v.elems, v.name, ety, v.marks)
+        out.append((s2, r))
+    return out
+
+
 def _has_mut_capture(eng, st, clo):
     """does this closure capture something by mutable reference (so that running it has effects)?"""
     if isinstance(clo, VRef):
@@ -1111,8 +1148,12 @@ def iter_collect(eng, st, site, func, target, args, dty):
         # an adaptor closure with side effects (e.g. it pushes the rejected items elsewhere): analyse the collection as
         # the loop it is, one element per iteration
         if it.kind == "filter_map":
-            return eng.call_local(st, site, "synth::collect_filter_map", [it.src, it.extra], tag="collect")
-        return eng.call_local(st, site, "synth::collect", [it], tag="collect")
+            return _typed_collect(eng, st, site, "synth::collect_filter_map", [it.src, it.extra], dty)
+        return _typed_collect(eng, st, site, "synth::collect", [it], dty)
+    if isinstance(it, VIter) and it.kind in ("from_fn", "map_while", "take", "enumerate", "zip2", "chain2", "copied", "flatten", "chunks") \
+            and (dty is None or eng.T(dty).get("name") == "std::vec::Vec"):
+        # lazily stepped iterators without a closed form: the collection is the loop it is
+        return _typed_collect(eng, st, site, "synth::collect", [it], dty)
     bound = None
     src_cell = None
     if isinstance(it, VIter) and it.extra is not None:
@@ -1194,9 +1235,10 @@ def int_arith(eng, st, site, func, target, args, dty):
             return None
     inr = [c_le(Lin.const(lo), m), c_le(m, Lin.const(hi))]
     out = []
+    tn = eng.taint2(a, b)          # (a value computed from an absolute writer position stays position dependent)
     s_in = st.fork()
     if all(eng.add(s_in, c) for c in inr):
-        v = VInt(ty, m)
+        v = VInt(ty, m, None, None, tn)
         if mode == "checked":
             out.append((s_in, mk_option(eng, dty, True, v)))
         elif mode == "overflowing":
@@ -1209,7 +1251,7 @@ def int_arith(eng, st, site, func, target, args, dty):
             if mode == "checked":
                 out.append((s2, mk_option(eng, dty, False)))
             elif mode == "saturating":
-                out.append((s2, eng.const_int(ty, sat)))
+                out.append((s2, VInt(ty, Lin.const(sat), None, None, tn)))
             elif mode == "overflowing":
                 out.append((s2, VAdt(dty, Lin.const(0), {0: (eng.top_int(ty), TRUE)})))
             else:
@@ -1225,9 +1267,13 @@ def min_max(eng, st, site, func, target, args, dty):
         return None
     is_min = target["name"].endswith("min")
     out = []
+    tn = eng.taint2(a, b)          # which operand is chosen depends on both
+
+    def pick(x):
+        return x if x.taint == tn else VInt(x.ty, x.lin, x.mask, x.bits, tn)
     s1 = st.fork()
     if eng.add(s1, c_le(a.lin, b.lin)):
-        out.append((s1, a if is_min else b))
+        out.append((s1, pick(a if is_min else b)))
     if eng.add(st, c_lt(b.lin, a.lin)):
-        out.append((st, b if is_min else a))
+        out.append((st, pick(b if is_min else a)))
     return out
